@@ -10,7 +10,7 @@ from .. import ref
 
 # ------------------------------------------------------------------ names
 
-_NAME_POOL = ["a", "ab", "b", "e", "x", "y", "z", "n", "k", "alpha", "phi", "r", "E", "I", "e1", "a_1", "x2", "Sq",
+_NAME_POOL = ["a", "ab", "b", "e", "p0", "p1", "p12", "x", "y", "z", "n", "k", "alpha", "phi", "r", "E", "I", "e1", "a_1", "x2", "Sq",
               "theta", "U", "pa", "px1", "qq", "q", "p", "pp0", "in_", "for_", "arr", "A", "B", "A1", "N", "S", "pi2",
               "sinx", "Truex", "Measur", "names", "typ", "O", "Q", "j", "J", "e5", "E3", "j2"]
 _OP_POOL = ["Sgate", "BSgate", "Vac", "Dgate", "Rgate", "G", "Coherent", "Interferometer", "Xgate", "Zgate", "S2gate",
@@ -629,7 +629,10 @@ def script(draw, cfg=Cfg()):
     elif cfg.options and draw(st.integers(0, 2)) == 0:
         ptype = A.Meta(draw(ident().filter(lambda n: n != "tdm")), draw(st.one_of(st.none(), option_args(ctx))))
     if cfg.params:
-        ctx.params = draw(st.lists(ident(for_param=True), min_size=1, max_size=4, unique=True))
+        pn = ident(for_param=True)
+        if cfg.tdm:
+            pn = pn.filter(lambda n: not (n[0] == "p" and n[1:].isdigit()))
+        ctx.params = draw(st.lists(pn, min_size=1, max_size=4, unique=True))
     if cfg.regs:
         ctx.regs = draw(st.lists(st.integers(0, 12).map(lambda n: "q%d" % n), min_size=1, max_size=4, unique=True))
     items = []
@@ -654,4 +657,39 @@ def script(draw, cfg=Cfg()):
             items.append(draw(array_decl(ctx, symbolic=symbolic if cfg.sym_vars else None)))
         else:
             items.append(draw(for_loop(ctx, symbolic=arg_sym, max_mode=cfg.max_mode)))
-    return A.Script(name, version, target, ptype, [], items)
+    sc = A.Script(name, version, target, ptype, [], items)
+    if cfg.params and not _has_prim(sc, A.Param):
+        ctx.loopvar = None
+        e1 = draw(num_expr(ctx, 1, "real", "params"))
+        e1 = A.Flat(e1.operands + [A.Operand("", A.Param(draw(st.sampled_from(ctx.params))))], e1.ops + [draw(st.sampled_from(["+", "*", "-"]))])
+        kw = []
+        if draw(st.booleans()):
+            kw.append([draw(ident()), F1(A.Param(draw(st.sampled_from(ctx.params))), draw(st.sampled_from(["", "-"])))])
+        items.append(A.Stmt(draw(op_name()), A.Args([e1], kw, False), [draw(mode_expr(ctx, cfg.max_mode))], "", ""))
+    if cfg.regs and not _has_prim(sc, A.Reg):
+        ctx.loopvar = None
+        e1 = draw(num_expr(ctx, 1, "real", "regs"))
+        e1 = A.Flat(e1.operands + [A.Operand("", A.Reg(draw(st.sampled_from(ctx.regs))))], e1.ops + [draw(st.sampled_from(["+", "*", "-"]))])
+        items.append(A.Stmt(draw(op_name()), A.Args([e1], [], False), [draw(mode_expr(ctx, cfg.max_mode))], "", ""))
+    return sc
+
+
+def _has_prim(script, cls):
+    for it in script.items:
+        vals = []
+        if isinstance(it, A.ScalarDecl):
+            vals = [it.init]
+        elif isinstance(it, A.ArrayDecl):
+            vals = [e for r in it.rows for e in r]
+        elif isinstance(it, A.ArrayParamDecl):
+            if cls is A.Param:
+                return True
+        elif isinstance(it, (A.Stmt, A.For)):
+            for s_ in (it.body if isinstance(it, A.For) else [it]):
+                if s_.args is not None:
+                    vals += list(s_.args.pos) + [v for _, v in s_.args.kwargs]
+        for v in vals:
+            for x in (v.items if isinstance(v, A.ListVal) else [v]):
+                if isinstance(x, A.Flat) and any(isinstance(p, cls) for p in A.walk_prims(x)):
+                    return True
+    return False
